@@ -44,6 +44,24 @@ func init() {
 // refute: conds ∧ hyps is contradictory; when an integer φ occurs in the facts, once more per incoming edge with
 // the φ replaced by the edge's value and the edge's own conditions added (all edges must be refuted).
 func (fi *FuncInfo) refute(conds []Cond, hyps []Fact, depth int) bool {
+	// what is known about the values the facts mention (results of the byte-compare helpers, min/max, shifts of
+	// bit counts): a refutation has no goal whose atoms would pull these in
+	{
+		av := fi.atomValues()
+		seen := map[ssa.Value]bool{}
+		var vals []ssa.Value
+		for _, f := range append(append([]Fact{}, fi.factsOf(conds)...), hyps...) {
+			for a := range f.L.t {
+				if v, ok := av[a]; ok && !seen[v] {
+					seen[v] = true
+					vals = append(vals, v)
+				}
+			}
+		}
+		if len(vals) > 0 && len(vals) < 40 {
+			hyps = append(append([]Fact{}, hyps...), fi.valueFacts(vals)...)
+		}
+	}
 	if fi.proveLE0(linConst(1), conds, hyps, map[string]bool{}, 0) {
 		return true
 	}
